@@ -409,40 +409,139 @@ def facet_if(st, base_name, what, value_is_raw=False):
 LITERAL_SITES = []      # (site, written through _to_schema_literal?)
 
 
+def _flag(e, sigma, flags):
+    """value of a condition on the template parameter under sigma = {'Decimal': bool, 'Integer': bool}
+    (issubclass(T, Decimal) / issubclass(T, Integer)), or None when it is not such a condition"""
+    if isinstance(e, ast.Call) and isinstance(e.func, ast.Name) and e.func.id == 'issubclass' and len(e.args) == 2 and not e.keywords \
+            and isinstance(e.args[0], ast.Name) and e.args[0].id == 'T' and isinstance(e.args[1], ast.Name) and e.args[1].id in sigma:
+        return sigma[e.args[1].id]
+    if isinstance(e, ast.Name) and e.id in flags:
+        return flags[e.id]
+    if isinstance(e, ast.Constant) and isinstance(e.value, bool):
+        return e.value
+    if isinstance(e, ast.UnaryOp) and isinstance(e.op, ast.Not):
+        v = _flag(e.operand, sigma, flags)
+        return None if v is None else not v
+    if isinstance(e, ast.BoolOp):
+        vs = [_flag(x, sigma, flags) for x in e.values]
+        if any(v is None for v in vs):
+            return None
+        return all(vs) if isinstance(e.op, ast.And) else any(vs)
+    return None
+
+
+def _specialise(stmts, sigma, flags, closures, depth=0):
+    """the statements executed for a template parameter of the given kind: conditions on the
+    parameter are decided, calls of closures defined in the template are replaced by their bodies"""
+    need(depth < 6, 'Tget_range_restriction_tag: closures nested too deep')
+    out = []
+    for st in strip_doc(stmts):
+        if isinstance(st, ast.Pass):
+            continue
+        if isinstance(st, ast.If):
+            v = _flag(st.test, sigma, flags)
+            if v is not None:
+                out.extend(_specialise(st.body if v else st.orelse, sigma, flags, closures, depth + 1))
+                continue
+            if isinstance(st.test, ast.BoolOp) and isinstance(st.test.op, ast.And):
+                vs = [(x, _flag(x, sigma, flags)) for x in st.test.values]
+                if any(v is not None for _, v in vs):
+                    need(not st.orelse, 'Tget_range_restriction_tag: a guarded facet statement has an else branch')
+                    if any(v is False for _, v in vs):
+                        continue
+                    rest = [x for x, v in vs if v is None]
+                    need(rest, 'Tget_range_restriction_tag: unrecognised guard')
+                    st = ast.If(rest[0] if len(rest) == 1 else ast.BoolOp(ast.And(), rest), st.body, [])
+            out.append(st)
+            continue
+        if isinstance(st, ast.Expr) and isinstance(st.value, ast.Call) and isinstance(st.value.func, ast.Name) \
+                and st.value.func.id in closures:
+            fn = closures[st.value.func.id]
+            a = fn.args
+            need(not (a.vararg or a.kwarg or a.kwonlyargs or a.defaults or a.posonlyargs or st.value.keywords)
+                 and len(a.args) == len(st.value.args) and all(_pure(x) for x in st.value.args),
+                 'closure %s: unrecognised signature or call' % fn.name)
+            env = {p.arg: x for p, x in zip(a.args, st.value.args)}
+            need(not any(n in env for n in _assigned(fn.body)), 'closure %s rebinds a parameter' % fn.name)
+            out.extend(_specialise([subst(b, env) for b in fn.body], sigma, flags, closures, depth + 1))
+            continue
+        out.append(st)
+    return out
+
+
+def _template_case(T, sigma):
+    """(flags, closures) after running the body of the template for a parameter of the given kind"""
+    flags, closures = {}, {}
+
+    def run(stmts):
+        for st in strip_doc(stmts):
+            if isinstance(st, (ast.ImportFrom, ast.Pass)):
+                continue
+            if isinstance(st, ast.FunctionDef):
+                need(not st.decorator_list, 'Tget_range_restriction_tag: decorated closure')
+                closures[st.name] = st
+            elif isinstance(st, ast.Assign) and len(st.targets) == 1 and isinstance(st.targets[0], ast.Name):
+                v = _flag(st.value, sigma, flags)
+                need(v is not None, 'Tget_range_restriction_tag: unrecognised assignment %s' % dump(st)[:160])
+                flags[st.targets[0].id] = v
+            elif isinstance(st, ast.If):
+                v = _flag(st.test, sigma, flags)
+                need(v is not None, 'Tget_range_restriction_tag: a condition is not on the template parameter: %s' % dump(st.test)[:160])
+                run(st.body if v else st.orelse)
+            elif isinstance(st, ast.Return):
+                need(isinstance(st.value, ast.Name) and st.value.id in closures, 'Tget_range_restriction_tag: unrecognised return')
+                return st.value.id
+            else:
+                raise TranslateError('Tget_range_restriction_tag: unrecognised statement %s' % dump(st)[:160])
+        return None
+    ret = run(T.body)
+    need(ret is not None, 'Tget_range_restriction_tag returns nothing')
+    return flags, closures, ret
+
+
 def tr_range(tree, out):
+    """the facets the range emitter writes, for each kind of template parameter: the template body
+    is run symbolically for T not a Decimal / a Decimal that is not an Integer / an Integer; in the
+    returned closure, conditions on T are decided and calls of sibling closures are inlined"""
     T = find_function(tree, ['Tget_range_restriction_tag'])
-    body = strip_doc(T.body)
-    need(len(body) == 5 and isinstance(body[0], ast.ImportFrom) and isinstance(body[1], ast.ImportFrom)
-         and isinstance(body[2], ast.If) and isinstance(body[3], ast.FunctionDef) and isinstance(body[4], ast.Return),
-         'Tget_range_restriction_tag: unrecognised structure')
-    disp = body[2]
-    need(same(disp.test, 'issubclass(T, Decimal)'), 'Tget_range_restriction_tag: dispatch is not on issubclass(T, Decimal)')
-    need(len(disp.body) == 3 and [getattr(s, 'name', None) for s in disp.body[:2]] == ['_get_float_restrictions', '_get_integer_restrictions']
-         and isinstance(disp.body[2], ast.If), 'Tget_range_restriction_tag: unrecognised Decimal branch')
-    fl, it, sel = disp.body
-    need(len(fl.body) == 1 and len(it.body) == 1, 'digit restriction functions: unrecognised body')
-    flx = facet_if(fl.body[0], 'T', '_get_float_restrictions')
-    itx = facet_if(it.body[0], 'T', '_get_integer_restrictions')
-    need(same(sel, "if issubclass(T, Integer):\n    def _get_additional_restrictions(prot, restriction, cls):\n"
-                   "        _get_integer_restrictions(prot, restriction, cls)\nelse:\n"
-                   "    def _get_additional_restrictions(prot, restriction, cls):\n"
-                   "        _get_integer_restrictions(prot, restriction, cls)\n"
-                   "        _get_float_restrictions(prot, restriction, cls)"),
-         'Tget_range_restriction_tag: unrecognised Integer / Decimal selection of digit facets')
-    need(len(disp.orelse) == 1 and same(disp.orelse[0], "def _get_additional_restrictions(prot, restriction, cls):\n    pass"),
-         'Tget_range_restriction_tag: unrecognised non-Decimal branch')
-    g = body[3]
-    gb = strip_doc(g.body)
-    need(g.name == '_get_range_restriction_tag' and same(gb[0], 'restriction = simple_get_restriction_tag(document, cls)')
-         and same(gb[1], 'if restriction is None:\n    return') and same(gb[-2], '_get_additional_restrictions(prot, restriction, cls)')
-         and same(gb[-1], 'return restriction'), '_get_range_restriction_tag: unrecognised frame')
-    pairs = [facet_if(s, 'T', '_get_range_restriction_tag') for s in unroll(gb[2:-2], tree)]
-    need(len(set(p[0] for p in pairs)) == len(pairs), '_get_range_restriction_tag: an attribute is written twice')
+    need([a.arg for a in T.args.args] == ['T'], 'Tget_range_restriction_tag: unrecognised signature')
+    imported = [n.name for st in T.body if isinstance(st, ast.ImportFrom) and st.module == 'spyne.model.primitive' for n in st.names]
+    need(sorted(imported) == ['Decimal', 'Integer'], 'Tget_range_restriction_tag: Decimal / Integer are not the spyne.model.primitive classes')
+    cases = {}
+    for kind, sigma in (('other', {'Decimal': False, 'Integer': False}), ('decimal', {'Decimal': True, 'Integer': False}),
+                        ('integer', {'Decimal': True, 'Integer': True})):
+        flags, closures, ret = _template_case(T, sigma)
+        g = closures[ret]
+        need([a.arg for a in g.args.args] == ['document', 'cls'], '%s: unrecognised signature' % g.name)
+        need(not any(n in flags or n in closures for n in _assigned(g.body)), '%s rebinds a name of the template' % g.name)
+        gb = _specialise(g.body, sigma, flags, closures)
+        need(len(gb) >= 3 and same(gb[0], 'restriction = simple_get_restriction_tag(document, cls)')
+             and same(gb[1], 'if restriction is None:\n    return') and same(gb[-1], 'return restriction'),
+             '_get_range_restriction_tag: unrecognised frame')
+        pairs = [facet_if(st, 'T', '_get_range_restriction_tag') for st in unroll(gb[2:-1], tree)]
+        need(len(set(p[0] for p in pairs)) == len(pairs), '_get_range_restriction_tag: an attribute is written twice')
+        cases[kind] = pairs
+    rng_attrs = ('gt', 'ge', 'lt', 'le', 'pattern')
+    common = [p for p in cases['other']]
+    need(all(p[0] in rng_attrs for p in common), '_get_range_restriction_tag: a digit facet is written for a class that is not a Decimal')
+    for kind in ('decimal', 'integer'):
+        need(cases[kind][:len(common)] == common and all(p[0] not in rng_attrs for p in cases[kind][len(common):]),
+             '_get_range_restriction_tag: the range facets differ between kinds of classes, or digit facets come first')
+    idig, ddig = cases['integer'][len(common):], cases['decimal'][len(common):]
+    # every site writes its value through the same function for every kind: LITERAL_SITES was filled once per kind
+    seen, uniq = set(), []
+    for site in LITERAL_SITES:
+        if site[0].startswith('range '):
+            if site in seen:
+                continue
+            seen.add(site)
+        uniq.append(site)
+    LITERAL_SITES[:] = uniq
+    fmt = lambda ps: '; '.join('(%s, %s)' % (RATTR[a], FTAG[t]) for a, t in ps)
     out.append('(** Tget_range_restriction_tag: attribute -> facet element, in the order written *)')
-    out.append('Definition range_facets : list (rattr * ftag) := [%s].' % '; '.join('(%s, %s)' % (RATTR[a], FTAG[t]) for a, t in pairs))
-    out.append('Definition integer_digit_facets : list (rattr * ftag) := [(%s, %s)].' % (RATTR[itx[0]], FTAG[itx[1]]))
-    out.append('Definition decimal_digit_facets : list (rattr * ftag) := [(%s, %s); (%s, %s)].'
-               % (RATTR[itx[0]], FTAG[itx[1]], RATTR[flx[0]], FTAG[flx[1]]))
+    out.append('Definition range_facets : list (rattr * ftag) := [%s].' % fmt(common))
+    out.append('Definition integer_digit_facets : list (rattr * ftag) := [%s].' % fmt(idig))
+    out.append('Definition decimal_digit_facets : list (rattr * ftag) := [%s].' % fmt(ddig))
 
 
 def tr_unicode(tree, out):
